@@ -5,21 +5,22 @@ import (
 	"fmt"
 	"os"
 	"path/filepath"
+	"regexp"
 	"sort"
 	"strings"
 	"testing"
+	"time"
 
 	"github.com/zerx-lab/wordZero/pkg/document"
 	"github.com/zerx-lab/wordZero/pkg/markdown"
 
 	"wzverif/internal/kit"
-	"wzverif/internal/opc"
 	"wzverif/internal/xmlwf"
 )
 
 func TestMain(m *testing.M) {
 	document.SetGlobalLevel(document.LogLevelSilent)
-	kit.TestMain(m, 1800, 12000)
+	kit.TestMain(m, 1300, 12000)
 }
 
 func convOpts(o Opts) *markdown.ConvertOptions {
@@ -41,38 +42,85 @@ func optLabel(o Opts) string {
 	return s
 }
 
-// convert runs the entry point named by the case on a fresh converter. It returns the in-memory document
-// (nil for the file entry point) and the saved package bytes.
-func convert(res *kit.Result, c Case, src []byte) (doc *document.Document, saved []byte, ok bool) {
+// outcome of converting the judged input through the entry point named by the case
+type outcome struct {
+	doc   *document.Document // in-memory entry points only
+	saved []byte             // the package: ToBytes of doc, or the file a file entry point wrote
+	act   []ablk             // the body as judged: observe(doc), or the independent reading of the written package
+	ok    bool
+}
+
+func fileEntry(e string) bool { return e == "file" || e == "batch" }
+
+// warmUp converts the warm-up documents of the case on cv. What cv returns for the judged input afterwards must
+// not depend on them.
+func warmUp(res *kit.Result, cv *markdown.Converter, co *markdown.ConvertOptions, c Case, judged bool) bool {
+	for i, w := range c.Warm {
+		var err error
+		p, st := kit.Try(func() { _, err = cv.ConvertString(w, co) })
+		if !judged {
+			if p != nil || err != nil {
+				return false
+			}
+			continue
+		}
+		res.Eval("C19.M0")
+		if p != nil {
+			res.Fail("C19.M0", "conversion of warm-up document %d on the shared converter panicked: %v [%s]", i, p, st)
+			return false
+		}
+		if err != nil {
+			res.Fail("C19.M0", "conversion of warm-up document %d returned an error instead of a document: %v", i, err)
+			return false
+		}
+	}
+	return true
+}
+
+// convert runs the entry point named by the case on a fresh converter (one Converter per case; the warm-up
+// documents of the case go through it first: as ConvertString calls, or - BatchConvert - as the files that
+// precede the judged one in the same batch).
+func convert(res *kit.Result, c Case, src []byte) (out outcome) {
 	co := convOpts(c.Opts)
 	var err error
 	var p interface{}
 	var st string
-	// one Converter per case; the warm-up documents of the case go through it first. What it returns for the
-	// judged input must not depend on them.
+	var doc *document.Document
+	var saved []byte
 	cv := markdown.NewConverter(co)
-	for i, w := range c.Warm {
-		p, st = kit.Try(func() { _, err = cv.ConvertString(w, co) })
-		res.Eval("C19.M0")
-		if p != nil {
-			res.Fail("C19.M0", "conversion of warm-up document %d on the shared converter panicked: %v [%s]", i, p, st)
-			return nil, nil, false
-		}
-		if err != nil {
-			res.Fail("C19.M0", "conversion of warm-up document %d returned an error instead of a document: %v", i, err)
-			return nil, nil, false
-		}
+	if c.Entry != "batch" && !warmUp(res, cv, co, c, true) {
+		return
 	}
+	dir := ""
+	tConv := time.Now()
 	switch c.Entry {
-	case "file":
-		dir, _ := os.MkdirTemp(kit.Scratch, "c19-")
+	case "file", "batch":
+		dir, _ = os.MkdirTemp(kit.Scratch, "c19-")
 		defer os.RemoveAll(dir)
 		in, outp := filepath.Join(dir, "in.md"), filepath.Join(dir, "out.docx")
 		if werr := os.WriteFile(in, src, 0o644); werr != nil {
 			res.Count("scratch_write_errors", 1)
-			return nil, nil, false
+			return
 		}
-		p, st = kit.Try(func() { err = cv.ConvertFile(in, outp, co) })
+		if c.Entry == "file" {
+			p, st = kit.Try(func() { err = cv.ConvertFile(in, outp, co) })
+		} else {
+			// BatchConvert: the warm-up documents are the files before the judged one
+			var inputs []string
+			for i, w := range c.Warm {
+				f := filepath.Join(dir, "w"+itoa(i)+".md")
+				if werr := os.WriteFile(f, []byte(w), 0o644); werr != nil {
+					res.Count("scratch_write_errors", 1)
+					return
+				}
+				inputs = append(inputs, f)
+			}
+			inputs = append(inputs, in)
+			co.IgnoreErrors = false // a per-file error is returned, not swallowed (the callback also receives mere notices: not used)
+			outDir := filepath.Join(dir, "out")
+			outp = filepath.Join(outDir, "in.docx")
+			p, st = kit.Try(func() { err = cv.BatchConvert(inputs, outDir, co) })
+		}
 		if p == nil && err == nil {
 			saved, err = os.ReadFile(outp)
 		}
@@ -81,32 +129,92 @@ func convert(res *kit.Result, c Case, src []byte) (doc *document.Document, saved
 	default:
 		p, st = kit.Try(func() { doc, err = cv.ConvertBytes(src, co) })
 	}
+	phase("convert", tConv)
 	res.Eval("C19.M0")
 	if p != nil {
 		res.Fail("C19.M0", "conversion (%s entry) panicked: %v [%s]", c.Entry, p, st)
-		return nil, nil, false
+		return
 	}
 	if err != nil {
 		res.Fail("C19.M0", "conversion (%s entry) of a byte string returned an error instead of a document: %v", c.Entry, err)
-		return nil, nil, false
+		return
 	}
-	if c.Entry != "file" {
+	out.doc = doc
+	if !fileEntry(c.Entry) {
 		if doc == nil {
 			res.Fail("C19.M0", "conversion returned neither a document nor an error")
-			return nil, nil, false
+			return
 		}
 		p, st = kit.Try(func() { saved, err = doc.ToBytes() })
 		if p != nil {
 			res.Fail("C19.M0", "ToBytes of the converted document panicked: %v [%s]", p, st)
-			return doc, nil, false
+			return
 		}
 		if err != nil {
 			res.Fail("C19.M0", "the converted document does not save: %v", err)
-			return doc, nil, false
+			return
 		}
 	}
+	out.saved = saved
+	tPkg := time.Now()
 	checkPackage(res, saved, c.Entry, sampleConstant(src))
-	return doc, saved, true
+	phase("checkPackage", tPkg)
+	if !fileEntry(c.Entry) {
+		out.act = observe(doc)
+		out.ok = true
+		return
+	}
+	// file entry points: the document is what the written package holds (for arbitrary byte strings without the
+	// text of formula runs, see entryAgreement)
+	tRead := time.Now()
+	defer func() { phase("read+agree", tRead) }()
+	if out.act, err = readBody(saved, c.Kind != "ast"); err != nil {
+		res.Fail("C19.M0", "the body of the package written by the %s entry cannot be read: %v", c.Entry, err)
+		return
+	}
+	out.ok = true
+	entryAgreement(res, c, src, dir, out.act)
+	return
+}
+
+// entryAgreement (M7): the document is a function of the byte string and the options - the file entry points
+// convert the bytes of the file, so the package they write holds the same body as the package of the document
+// ConvertBytes returns for those bytes (same options; relative image paths are documented to resolve against the
+// directory of the Markdown file, so that directory is the reference's ImageBasePath). The text of formula runs
+// is left out of the comparison for arbitrary byte strings (the LaTeX display text is not judged by this check).
+func entryAgreement(res *kit.Result, c Case, src []byte, dir string, a []ablk) {
+	if len(src) > 1<<16 { // budget: the giant inputs (tables of 10^5 cells, a token repeated thousands of times) are judged for totality only
+		res.Count("agreement_skipped_large_input", 1)
+		return
+	}
+	co := convOpts(c.Opts)
+	co.ImageBasePath = dir
+	cv := markdown.NewConverter(co)
+	if !warmUp(res, cv, co, c, false) {
+		res.Count("agreement_reference_failed", 1)
+		return
+	}
+	var ref *document.Document
+	var refSaved []byte
+	var err error
+	if p, _ := kit.Try(func() {
+		if ref, err = cv.ConvertBytes(src, co); err == nil && ref != nil {
+			refSaved, err = ref.ToBytes()
+		}
+	}); p != nil || err != nil || refSaved == nil {
+		res.Count("agreement_reference_failed", 1) // the same bytes through the bytes entry are judged by other cases
+		return
+	}
+	b, errB := readBody(refSaved, c.Kind != "ast")
+	if errB != nil {
+		res.Count("agreement_reference_failed", 1)
+		return
+	}
+	res.Eval("C19.M7")
+	res.Label("agreement:judged")
+	if d := firstDifference(a, b); d != "" {
+		res.Fail("C19.M7", "the %s entry point and ConvertBytes disagree on the same bytes %q (written package / package of the ConvertBytes document): %s", c.Entry, trunc(string(src), 300), d)
+	}
 }
 
 func runBytes(c Case) *kit.Result {
@@ -116,15 +224,12 @@ func runBytes(c Case) *kit.Result {
 	reuseLabel(res, c)
 	res.Label("bytes:" + c.Cls)
 	res.Label("entry:" + c.Entry)
-	doc, saved, _ := convert(res, c, src)
+	o := convert(res, c, src)
 	n := 0
-	if doc != nil && doc.Body != nil {
-		n = len(doc.Body.Elements)
-	} else if c.Entry == "file" && saved != nil { // no in-memory document: count the body elements of the written part
-		if pkg, err := opc.Read(saved); err == nil {
-			d := pkg.Parts["word/document.xml"]
-			n = bytes.Count(d, []byte("<w:p>")) + bytes.Count(d, []byte("<w:p ")) + bytes.Count(d, []byte("<w:tbl>"))
-		}
+	if o.doc != nil && o.doc.Body != nil {
+		n = len(o.doc.Body.Elements)
+	} else if fileEntry(c.Entry) { // no in-memory document: the body elements of the written part
+		n = len(o.act)
 	}
 	// LaTeX -> OMML on the same string: must return, whatever the input
 	if len(src) <= 4096 {
@@ -136,6 +241,25 @@ func runBytes(c Case) *kit.Result {
 		}
 		res.Label("latex-api")
 	}
+	// ... and on every formula body of the case by itself
+	for i, t := range c.Toks {
+		if !t.F {
+			continue
+		}
+		blk := i%2 == 0 // inline and display form alternate
+		p, st := kit.Try(func() { _, _ = markdown.LaTeXToOMMLString(t.S, blk) })
+		if p != nil {
+			res.Fail("C19.M0", "LaTeXToOMMLString(%q, %v) panicked: %v [%s]", trunc(t.S, 200), blk, p, st)
+		}
+		res.Count("formulas", 1)
+	}
+	if c.Opts.Math {
+		for _, lc := range latexClasses {
+			if lc.re.Match(src) {
+				res.Label("latex:" + lc.name)
+			}
+		}
+	}
 	res.Nontrivial = n >= 1
 	var ks []string
 	for i, t := range c.Toks {
@@ -145,6 +269,19 @@ func runBytes(c Case) *kit.Result {
 	}
 	res.Shape = "bytes|" + c.Cls + "|" + optLabel(c.Opts) + "|" + strings.Join(ks, "\x00") + fmt.Sprint(len(src)/64, n)
 	return res
+}
+
+// classes of LaTeX constructs in a totality input (labels; math on)
+var latexClasses = []struct {
+	name string
+	re   *regexp.Regexp
+}{
+	{"root-index", regexp.MustCompile(`\\sqrt\s*\[[^\]]+\]\s*\{`)},
+	{"root", regexp.MustCompile(`\\sqrt\s*\{`)},
+	{"frac", regexp.MustCompile(`\\[dtc]?frac\s*\{`)},
+	{"script-braced", regexp.MustCompile(`[\^_]\{`)},
+	{"left-right", regexp.MustCompile(`\\left`)},
+	{"environment", regexp.MustCompile(`\\begin\{`)},
 }
 
 func reuseLabel(res *kit.Result, c Case) {
@@ -290,8 +427,8 @@ func runAST(c Case) *kit.Result {
 		res.Label("toc-bookmarks")
 	}
 
-	doc, _, ok := convert(res, c, src)
-	if !ok || doc == nil {
+	o := convert(res, c, src)
+	if !o.ok {
 		return res
 	}
 
@@ -322,7 +459,7 @@ func runAST(c Case) *kit.Result {
 	} else {
 		res.Label("judged:some-block-in-finding-class")
 	}
-	judge(res, exp, observe(doc), c.Opts.GFM && !c.Opts.Tables)
+	judge(res, exp, o.act, c.Opts.GFM && !c.Opts.Tables)
 
 	delete(bk, "task")
 	nb := len(bk)
@@ -342,8 +479,47 @@ func runAST(c Case) *kit.Result {
 	return res
 }
 
+// leadingIndent: the first non-blank line of the source starts with white space (its indentation is syntax:
+// indented code, an indented fence, ...)
+func leadingIndent(src []byte) bool {
+	t := bytes.TrimLeft(src, "\r\n")
+	return len(t) > 0 && (t[0] == ' ' || t[0] == '\t') && len(bytes.TrimSpace(t)) > 0
+}
+
 func run(c Case) *kit.Result {
+	res := run1(c)
+	src := c.Bytes()
+	if c.Kind == "ast" {
+		src = []byte(c.Markdown())
+	}
+	if leadingIndent(src) {
+		res.Label("src:leading-indent")
+		if fileEntry(c.Entry) {
+			res.Label("src:leading-indent+file-entry")
+		}
+	}
+	return res
+}
+
+var debugPhases []string // development aid (C19_DEBUG_SLOW): where the time of the current case went
+
+func phase(name string, t0 time.Time) {
+	if os.Getenv("C19_DEBUG_SLOW") != "" {
+		debugPhases = append(debugPhases, name+"="+time.Since(t0).Round(time.Millisecond).String())
+	}
+}
+
+func run1(c Case) *kit.Result {
 	document.VerifResetGlobals()
+	debugPhases = debugPhases[:0]
+	if os.Getenv("C19_DEBUG_SLOW") != "" { // development aid: which cases come near the watchdog
+		t0 := time.Now()
+		defer func() {
+			if d := time.Since(t0); d > 300*time.Millisecond {
+				fmt.Fprintf(os.Stderr, "SLOW %v kind=%s cls=%s entry=%s srclen=%d phases=%v\n", d, c.Kind, c.Cls, c.Entry, len(c.Bytes()), debugPhases)
+			}
+		}()
+	}
 	if c.Kind == "ast" {
 		return runAST(c)
 	}
@@ -359,18 +535,27 @@ func TestC19(t *testing.T) {
 	}
 	kit.Main(t, kit.Spec[Case]{
 		ID: "C19", Level: "exploration",
-		Rule: "about 35% totality cases (random bytes, random UTF-8, Markdown token soup, one token repeated up to 1500x (thorough 6000x), huge pipe tables, unbalanced $, LaTeX soup, slices of a document using every construct re-assembled with soup tokens; entry points ConvertBytes/ConvertString/ConvertFile; LaTeXToOMMLString on the same bytes) and 65% fidelity cases (Markdown AST of 1-7 (thorough 1-12) top-level blocks serialised canonically, words from a safe alphabet), each under a drawn combination of GFM/tables/task lists/math/footnotes/TOC/TOC level; in 40% of all cases the Converter has first converted 1-2 other documents (link reference, footnote, heading-id, math, table definitions; expected result unchanged); a fidelity case is judged only if the AST reading equals the reading of goldmark's HTML (else discarded and counted); 3/4 of the fidelity cases are built only from forms outside every open finding's input class (label judged:unmasked), 1/4 carry one such class. Non-trivial: fidelity = judged case with >=3 block kinds and >=2 inline kinds; totality = conversion produced >=1 body element. Distinct = option set + block/inline structure signature (fidelity) or class + first tokens + size bucket (totality)",
+		Rule: "about 35% totality cases (random bytes, random UTF-8, Markdown token soup, one token repeated up to 1500x (thorough 6000x), huge pipe tables, unbalanced $, LaTeX token soup, formula documents (1-5 formulas drawn from a LaTeX command grammar - roots with drawn index, fractions, scripts, big operators with bounds, delimiters, wrappers with optional arguments, environments, unfinished constructs; every argument/index/bound drawn from both letter cases, digits, commands, nested expressions - placed inline, as display, in items, quotes, cells, headings, spans), slices of a document using every construct re-assembled with soup tokens; LaTeXToOMMLString on the same bytes and on every formula body) and 65% fidelity cases (Markdown AST of 1-7 (thorough 1-12) top-level blocks serialised canonically, words from a safe alphabet), each under a drawn combination of GFM/tables/task lists/math/footnotes/TOC/TOC level and through a drawn entry point: ConvertBytes, ConvertString, ConvertFile, BatchConvert (file entry points are judged on the package they write, read by an independent reader of the main document part, and compared with the package of the document ConvertBytes returns for the same bytes); in 40% of all cases the Converter has first converted 1-2 other documents (link reference, footnote, heading-id, math, table definitions; in a batch: the files before the judged one; expected result unchanged); a fidelity case is judged only if the AST reading equals the reading of goldmark's HTML (else discarded and counted); 3/4 of the fidelity cases are built only from forms outside every open finding's input class (label judged:unmasked), 1/4 carry one such class. A case that does not return within 15 s (thorough 45 s) ends the process (watchdog) and is replayed by the driver. Non-trivial: fidelity = judged case with >=3 block kinds and >=2 inline kinds; totality = conversion produced >=1 body element. Distinct = option set + block/inline structure signature (fidelity) or class + first tokens + size bucket (totality)",
 		Gen:  genCase, Run: run, Findings: findings, Fixed: fixedCases,
+		// totality includes termination: a case that has not returned after 15 s (thorough tier, whose inputs are
+		// up to 50 times larger: 45 s; the slowest case of the quick search takes about half a second on a machine
+		// loaded four times over, one stall of 8 s was seen in the thorough tier) stops the process with the watchdog's exit code; the driver replays the saved
+		// case with three times the limit and reports a VIOLATION if it dies again
+		CaseLimit: time.Duration(kit.Scale(15, 45)) * time.Second,
 		Assumptions: []string{
 			"the visible text of a document is the text of the runs of its body paragraphs and table cells, in body order; list bullets, numbers and check-box glyphs at the start of a list paragraph and the blank standing for an empty code line are not text",
 			"heading style of level n is the style id Heading<n>; code formatting is any monospace font on the run; a thematic break carries no text and is not judged beyond totality",
 			"bold/italic coming from the heading style or from a table header row is not attributed to inline emphasis",
 			"formulas are judged for text only (plain alphanumeric content), not for formatting; the state of a task-list check box is not visible text",
 			"white space inside a block is compared after collapsing runs of blanks and line breaks to one blank; M1 ignores white space altogether",
+			"the document a file entry point yields is the body of the main document part of the package it writes (paragraphs, runs with b/i/strike/rFonts, tables; w:t without xml:space=preserve is trimmed as a consumer would)",
+			"M7: the document depends on the bytes and the options only, so ConvertFile/BatchConvert write the body that ConvertBytes yields for the file's bytes (relative image paths resolve against the file's directory, as documented); for arbitrary byte strings the text of formula runs is left out of that comparison",
+			"termination is judged with a limit of 15 s per case (thorough tier 45 s; slowest observed case of the quick tier: about 0.5 s on an overloaded machine)",
 		},
 		MustSee: map[string]float64{"kind:bytes": 0.2, "kind:ast": 0.5, "judged": 0.45, "judged:unmasked": 0.3, "blk:tbl": 0.08, "blk:code-fenced": 0.1, "blk:code-indented": 0.04,
 			"blk:ul": 0.12, "blk:ol": 0.05, "blk:task": 0.04, "blk:bq": 0.08, "blk:h": 0.15, "blk:h-setext": 0.05, "blk:hr": 0.05, "inl:em": 0.1, "inl:st": 0.1, "inl:code": 0.1, "inl:link": 0.1, "inl:sb": 0.1, "inl:del": 0.05, "blk:math": 0.03, "inl:math": 0.05,
-			"bytes:soup": 0.05, "bytes:deep": 0.01, "bytes:table": 0.01, "bytes:dollar": 0.008, "bytes:splice": 0.03, "entry:file": 0.03,
+			"bytes:soup": 0.05, "bytes:deep": 0.01, "bytes:table": 0.01, "bytes:dollar": 0.008, "bytes:splice": 0.03, "entry:file": 0.08, "entry:batch": 0.08,
+			"bytes:formula": 0.03, "latex:root-index": 0.015, "latex:frac": 0.02, "latex:script-braced": 0.02, "agreement:judged": 0.15, "src:leading-indent+file-entry": 0.01,
 			"converter:reused": 0.25, "converter:fresh": 0.3, "inl:br": 0.15, "code:indented-fence+tab": 0.03},
 	})
 }
